@@ -227,6 +227,15 @@ func (g *rng) c02NewLogger(format string, idx int, pkg bool) *c02Logger {
 		c.leveled[sev] = []int{w}
 		lv = append(lv, fmt.Sprintf("%d=%d", sev, w))
 	}
+	if g.chance(1, 4) {
+		// a per-level writer that is added and removed again: the (now empty) per-level list falls back to the class writers
+		sev := []int{3, 5, 9}[g.intn(3)]
+		w = mk()
+		c.l.AddLevelWriter(slog.Level(sev), c.writerOf[w])
+		c.l.RemoveLevelWriter(slog.Level(sev), c.writerOf[w])
+		c.leveled[sev] = nil
+		lv = append(lv, fmt.Sprintf("%d=-", sev))
+	}
 	leveled := "-"
 	if len(lv) > 0 {
 		leveled = strings.Join(lv, ";")
@@ -452,7 +461,7 @@ func c02Body(r *run, rounds int, openOnly bool) {
 					if sev <= 3 {
 						want = lg.errorW
 					}
-					if lw, ok := lg.leveled[sev]; ok {
+					if lw, ok := lg.leveled[sev]; ok && len(lw) > 0 {
 						want = lw
 					}
 				}
